@@ -221,7 +221,7 @@ Section World.
       if (max_frame <? len)%N then (exists e, r = RErr e) /\ s' = s
       else match r with
            | RRaw x => x = raw /\ rawlog (ua s') = rawlog (ua s) ++ [raw] /\ (max_frame <? rlen)%N = false
-           | RRawInjected _ => exists n, script n <> None
+           | RRawInjected _ => script (reqno (ua s)) <> None
            | RErr _ => True
            | _ => False
            end.
@@ -230,8 +230,7 @@ Section World.
       destruct (closed s); [auto|].
       unfold call_raw. destruct (alive (ua s)); cbn [negb]; [|auto].
       destruct (script (reqno (ua s))) as [ft|] eqn:Hs.
-      - assert (Hex : exists n, script n <> None) by (exists (reqno (ua s)); congruence).
-        destruct (f_exec ft), (f_kind ft); cbn; auto.
+      - destruct (f_exec ft), (f_kind ft); cbn; repeat split; try reflexivity; try exact I; discriminate.
       - destruct (max_frame <? rlen)%N; cbn; auto.
     Qed.
 
